@@ -1,12 +1,12 @@
 #!/bin/bash
 # Imports round-2 seeds from /tmp/seeds2/<id>/{c,d} into /verif/seeded/<id>{c,d} (only complete ones not yet imported).
-for d in /tmp/seeds8/C*/[op]; do
+for d in /tmp/seeds9/C*/[qr]; do
   [ -f $d/patch.diff ] && [ -f $d/meta.json ] && ls $d/*_test.go >/dev/null 2>&1 || continue
   id=$(basename $(dirname $d))$(basename $d)
   [ -d /verif/seeded/$id ] && continue
   mkdir -p /verif/seeded/$id
   cp $d/patch.diff $d/meta.json $d/*_test.go /verif/seeded/$id/
   # demo_run_cmd must be relative to the repository root
-  sed -i -E 's#cd /tmp/wt[2345678]?-C[0-9]+(/| *&& *)#\1#; ' /verif/seeded/$id/meta.json
+  sed -i -E 's#cd /tmp/wt[23456789]?-C[0-9]+(/| *&& *)#\1#; ' /verif/seeded/$id/meta.json
   echo imported $id
 done
